@@ -338,6 +338,22 @@ func (r *regWorld) storageOp(p *pools) (string, string) {
 		}
 		return rErr(err)
 	}
+	if rng.Intn(10) == 0 {
+		// the two single-statement counter operations: compare-and-store, fetch-and-increment
+		e := p.eui()
+		if rng.Intn(2) == 0 {
+			a, nf, kw := someU16(rng), someU16(rng), rng.Intn(2) == 0
+			if rng.Intn(2) == 0 {
+				nf = a + 1
+			}
+			return fmt.Sprintf("af:%s:%d:%d:%s", rEUI(e), a, nf, rB(kw)), res(st.AdvanceFCntUp(e, a, nf, kw))
+		}
+		c, err := st.NextFCntDn(e)
+		if err != nil {
+			return "nd:" + rEUI(e), rErr(err)
+		}
+		return "nd:" + rEUI(e), fmt.Sprintf("cnt:%d", c)
+	}
 	switch k := rng.Intn(44); {
 	case k < 3:
 		a := model.Application{AppEUI: p.app(), Tag: someTag(rng)}
